@@ -16,7 +16,8 @@ MANIFEST = dict(
          'accounts by ledger order, certificates by position) — the index equals the number of smaller items; every script '
          'the calls need is shipped exactly once, in the witness bucket of its language or on a reference/spent input, '
          'never both; every datum supplied with a script input is in the witness datum list once; the automatic '
-         'validity interval contains the current slot. Model tied to the code by replaying scenarios on the real '
+         'validity interval contains the current slot; calls that only name a UTxO (collateral, read-only reference input) or '
+         'give an output a datum hash build what the history without them builds (C11_inert_calls). Model tied to the code by replaying scenarios on the real '
          'TransactionBuilder; the decision procedure is evaluated in Coq on the bytes of the returned transaction.',
     note='Trusted: Coq kernel+vm_compute; hand model Redeemers.v validated by differential runs; scenario generator; driver; '
          'script/datum hashes computed by hashlib in the harness and cross-checked with pycardano. Reward pointers are '
@@ -37,7 +38,10 @@ ASSUMPTIONS = [
     'and each reward account gets at most one add_minting_script / add_withdrawal_script call (two redeemers for one '
     'ledger purpose cannot both be shipped: the redeemer map keeps the last)',
     'reward-account clause stated where bytewise order and the ledger\'s credential order agree (all accounts are script accounts)',
-    'certificates are only appended after a certificate script was attached; reference_inputs is only filled by add_* calls',
+    'certificates are only appended after a certificate script was attached; reference inputs the caller adds himself '
+    '(reference_inputs.add) carry no script the transaction needs (a witness script that is also resolvable by reference is an '
+    'extraneous witness for the ledger); such read-only reference inputs, explicit collateral and hash-only output datums '
+    'are calls of the model (C11_inert_calls)',
     'automatic validity: last_block_slot >= 0 and offsets with start <= 0 <= ttl (the defaults -1000 / +10000 qualify)',
 ]
 
